@@ -810,7 +810,8 @@ def run(ctx):
             cases.append(("builder", gen_dense_ops(ctx.rng), max_ids))
         # propagate_evidence=True: the source formula carries lookup_evidence, _break_cycles consults it in the query pass
         for _ in range(ctx.n(60, 2000)):
-            cases.append(("text+pe", gen_program(ctx.rng, ctx.rng.choice([5, 7, 9, max_ids - 1]), ev_choices=(1, 1, 2, 2, 3)), max_ids))
+            cases.append(("text+pe", gen_program(ctx.rng, ctx.rng.choice([5, 7, 9, max_ids - 1]), ev_choices=(1, 1, 2, 2, 3),
+                                                 det_facts=det_stream and ctx.rng.random() < 0.3), max_ids))
         for _ in range(ctx.n(90, 3000)):
             cases.append(("builder+pe", with_evidence_map(ctx.rng, gen_builder_ops(ctx.rng, ctx.rng.choice([4, 6, 8, max_ids - 2]))), max_ids))
         for _ in range(ctx.n(50, 2000)):
@@ -848,7 +849,7 @@ def run(ctx):
                 klass = listed_class or TRUE_CHILD_CLASS
                 what = ("LogicDAG.create_from raises AssertionError (get_node(0) from _break_cycles) on a ground program with evidence "
                         "and a node that has a TRUE child (deterministic fact on a cyclic atom)")
-                if not listed_class and "pe" in res["kind"].split("+"):
+                if not listed_class and "pe" in res["kind"].split("+") and not ctx.replay:
                     # the propagate_evidence stream can meet the known defect without deterministic facts in the text; as for the
                     # det_facts stream it is reported (KNOWN-FINDING) once known_findings.json lists the class for C09
                     ctx.count("classified %s, not reported: class not in known_findings.json for C09 (see notes/C09.md)" % TRUE_CHILD_CLASS)
